@@ -628,7 +628,8 @@ func fieldWriters(ix *srcIndex, qual string) map[string][]string {
 	return out
 }
 
-// resetWrites: the ordered list of receiver/parameter fields a function assigns directly.
+// resetWrites: the ordered list of non-local assignment targets (fields of the receiver or of a
+// parameter, elements) of a function.
 func resetWrites(ix *srcIndex, file, recv, name string) ([]string, error) {
 	for _, fn := range ix.funcs {
 		if fn.file != file || fn.recv != recv || fn.decl.Name.Name != name {
@@ -641,6 +642,9 @@ func resetWrites(ix *srcIndex, file, recv, name string) ([]string, error) {
 				return true
 			}
 			for _, l := range as.Lhs {
+				if _, plainLocal := l.(*ast.Ident); plainLocal {
+					continue // assignments to local variables are not state
+				}
 				out = append(out, exprString(l))
 			}
 			return true
